@@ -9,6 +9,7 @@ import numpy as np
 from mc import vm
 
 PID = 'C06'
+THOROUGH_HASHSEEDS = ['0', '1']     # two interpreter hash seeds in the thorough tier (one pass takes 15-30 min)
 ENGINE = 'E1'
 TECHNIQUE = 'bounded-exhaustive enumeration of vacancy data (k deviations from base points); tracer identities checked on every node'
 RULE = ('node = (crystal, cutoff, Nthermo, base, <=k deviations on vacancy-site/omega0 classes); nontrivial = node differs '
